@@ -313,6 +313,13 @@ def run(ctx):
     # not become visible before it is complete (an empty marker is refused as an invalid version forever).
     first_open_is_resumable(ctx, "R-C02.10")
 
+    # ---- cross-cutting disciplines (rules/discipline.py)
+    from .. import discipline as D
+    # a recovery / journal step that fails must fail the open, not be skipped
+    D.error_discipline(ctx, "R-C02.14", scope=lambda f: f.startswith(("db::Database::recover", "db::Database::create", "recovery::", "journal::", "<journal::")))
+    # every journal, batch, item, keyspace folder and watermark is visited
+    D.loops_visit_all(ctx, "R-C02.15")
+
     # ---- borrowed obligations (mechanisms owned by other properties that this property's verdict also rests on)
     # what was journaled must decode again: a decoder that rejects what the encoder writes loses acknowledged writes (read as a torn tail)
     ctx.borrow("C15", ["R-C15.3", "R-C15.6"], "R-C02.11")
